@@ -591,7 +591,7 @@ def main():
             k, c, r, eng = ties[0]
             p = write_replay(PROP, f'tie-{base_seed}.json',
                              {'property': PROP, 'kind': 'tie', 'engine': eng,
-                              'correspondence': 'E0: harness/e0/snd.cpp lines = Lean model Snd (exec and denotation) / E1: hook-event log of harness/e1/split.cpp (protocol events and every reference-count change sh.ref/sh.unref/sh.free) accepted by Lean model SharedLife over Shared',
+                              'correspondence': 'E0 and E0-static: harness/e0/snd.cpp lines = Lean model Snd (exec and denotation; static cases of the SndRef fragment also = SndRef.run) / E1: hook-event log of harness/e1/split.cpp (protocol events and every reference-count change sh.ref/sh.unref/sh.free) accepted by Lean model SharedLife over Shared',
                               'first_divergence': r['verdict'], 'case': c, 'impl_history': r['raw'],
                               'diverging_cases': len(ties), 'searched_cases': len(results) + extra_run})
             violations.append(f'VIOLATION property={PROP} replay={p} no-failing-input-found')
@@ -599,6 +599,7 @@ def main():
     # 4. evidence
     nontriv = set()
     dist = {}
+    pure_shapes = set()
     for k, c, r, eng in results:
         if k != 'pass':
             continue
@@ -614,6 +615,17 @@ def main():
             dist['sig_' + (m.group(1) if m else 'none')] = dist.get('sig_' + (m.group(1) if m else 'none'), 0) + 1
             if 'end crash' in r['raw']:
                 dist['terminated_by_design'] = dist.get('terminated_by_design', 0) + 1
+            # C03s coverage: how many cases ran statically typed, on which tier, with how many erased sub-terms
+            m = re.search(r'^xl end tier=(\w+) shape=(-?\d+) holes=(\d+)', r['raw'], flags=re.M)
+            if m and m.group(1) != 'erased' and 'asan' not in eng:
+                key = 'static_pure' if m.group(1) == 'pure' else ('static_ref_no_hole' if m.group(3) == '0' else 'static_ref_with_holes')
+                dist[key] = dist.get(key, 0) + 1
+                if m.group(1) == 'pure':
+                    pure_shapes.add(m.group(2))
+            for w in ('alive', 'null', 'dead'):
+                n = len(re.findall(r'^xl exc \S+ ' + w, r['raw'], flags=re.M))
+                if n:
+                    dist['exception_observations_' + w] = dist.get('exception_observations_' + w, 0) + n
         else:
             raw = r['raw']
             stored_cont = len(re.findall(r' sh\.seen2 \d+ 0 ', raw))
@@ -626,17 +638,20 @@ def main():
             dist['predecessor_completed_inline_in_consumer'] = dist.get('predecessor_completed_inline_in_consumer', 0) + inline
             for key in ('wa.fin', 'wa.latch', 'wa.store', 'wa.zero'):
                 dist[key] = dist.get(key, 0) + raw.count(f' {key} ')
+    dist['static_pure_distinct_shapes'] = len(pure_shapes)
     samples = (e0_cases[len([c for c in corpus if True]):][:2] + e1_cases[:1]) or (e0_cases + e1_cases)[:2]
+    samples += [c for c in e0_cases if ' static=1' in c][:1] + [c for c in e0_cases if ' static=2' in c][:1]
     cov = {
         'obligations': audit['obligations'], 'discharged': audit['discharged'],
         'checker_cmd': audit['checker_cmd'],
         'trusted_base': TRUSTED_BASE + [
             'E0 harness harness/e0/snd.cpp: term parser, instrumented payload type (ledger), probe/glue adaptors, terminal receiver; the Lean-side term parser in lean/Driver/SndDrv.lean',
+            'E0-static harness/e0/snd_static.hpp: the catalogue of statically typed shapes (PB<Shape>), the sum-of-senders alt / reference-preserving receiver handle rr of the REF tier, the static leaf, the exception ledger (reads the exception object address out of a libstdc++ exception_ptr), callable tokens',
             'the function language of user callables (add/rev/sum/dup/id/thr/throdd/const) and int-vector payloads stand for arbitrary callables and value types',
         ],
         'evaluations': len(results) + extra_run,
         'distinct_nontrivial': len(nontriv),
-        'rule': 'E0: random pipeline terms (2-12 nodes over just/err/stop/arg/schedule/transfer_just/then/let_value/let_error/drop_value/unpack/continues_on/bulk(generic)/require_started/drop_operation_state/when_all/when_all_vector/split/ensure_started/split_tuple, all three channels at leaves and inline schedulers, throwing callables, consumers terminal receiver / start_detached / sync_wait); E0-pool: the same terms with schedule/continues_on/transfer_just on pika thread_pool_scheduler of a running 2-worker runtime (completion on worker threads, ensure_started racing with the consumer, when_all predecessors racing; at most one non-value predecessor per when_all so that the denotation is order independent), results compared modulo placement after the runtime is idle; non-trivial = at least 3 operators, distinct = distinct (term, consumer). E1: split / ensure_started / split_tuple shared state and when_all counter with 2-5 threads under PRNG schedules; non-trivial = a continuation was stored or the counter was decremented concurrently',
+        'rule': 'E0-static (C03s): a third of the E0 cases are STATICALLY TYPED pipelines of the same term language with the same expected lines: static=1 = an instance of the pure catalogue (145 shapes: leaves; when_all of 1-3 / when_all_vector / split / ensure_started over leaves; each of then/let_value/let_error/continues_on/unpack/drop_value/require_started/drop_operation_state over a leaf, over just, over each storing predecessor and over each other; drop_operation_state over those; mixed storing shapes), one pika expression connected directly to the typed probe and terminal receiver, no erasure; static=2 = any term on the REF tier (sum types of senders to adaptor depth 3, receivers reached through a handle that forwards references, operation states nested in place; deeper sub-terms and st/bulk/when_all-of-4 are erased once = holes); leaves keep values / exception_ptr in their operation state and complete with references to them, let_value bodies read the predecessor values through the reference when started; error channel over-represented below drop_operation_state / let_error / continues_on; split optionally consumed once before the real consumer connects (spre=1); pool terms on the REF tier; all inline static cases again under ASan. E0: random pipeline terms (2-12 nodes over just/err/stop/arg/schedule/transfer_just/then/let_value/let_error/drop_value/unpack/continues_on/bulk(generic)/require_started/drop_operation_state/when_all/when_all_vector/split/ensure_started/split_tuple, all three channels at leaves and inline schedulers, throwing callables, consumers terminal receiver / start_detached / sync_wait); E0-pool: the same terms with schedule/continues_on/transfer_just on pika thread_pool_scheduler of a running 2-worker runtime (completion on worker threads, ensure_started racing with the consumer, when_all predecessors racing; at most one non-value predecessor per when_all so that the denotation is order independent), results compared modulo placement after the runtime is idle; non-trivial = at least 3 operators, distinct = distinct (term, consumer). E1: split / ensure_started / split_tuple shared state and when_all counter with 2-5 threads under PRNG schedules; non-trivial = a continuation was stored or the counter was decremented concurrently',
         'samples': samples,
         'traces_validated_against_impl': kinds['pass'],
         'disagreements_checked': kinds['tie'],
@@ -644,7 +659,8 @@ def main():
     }
     write_evidence(PROP, tr, base_seed, cov, time.time() - t0, len(violations), assumptions=[
         'the Lean term semantics is sequential (completion inline in start); in the E0-pool cases the real completion happens on worker threads and only the observable outcome (signal, consumer result, count, ledger) is compared with it; exhaustive interleavings are covered by the E1 tier for the shared-state adaptors and when_all only',
-        'every stage of an E0 pipeline is type-erased (unique_any_sender passes values by value), so lifetime errors of references into a destroyed predecessor operation state (drop_operation_state) cannot show in E0; the destruction itself and touch-after-destruction of operation states is modelled (freed/uaf) and proved, and checked on the implementation by ASan + the payload ledger',
+        'every stage of an erased E0 pipeline is type-erased (unique_any_sender passes values and errors by value, one heap block per stage), so lifetime errors of references into a destroyed predecessor operation state cannot show there; they are the subject of the E0-static cases (C03s): no erasure on the pure catalogue, reference-preserving receiver handles on the REF tier (an adaptor there sees the same reference arguments and the same nesting of operation states as in a fully static pipeline, but not the static type of its receiver), checked by the exception ledger (alive / same object at every read), the payload ledger, callable tokens and ASan, and proved for the fragment leaf/then/require_started/drop_operation_state/when_all(2)/split in Props/C03s.lean',
+        'values of the static pipelines are std::vector<P> (copyable, non-trivially destructible, every P in the ledger, moved-from P printed as such); a move-only value type is not used because drop_operation_state / split require copies of values received by reference',
         'sync_wait of a stopped pipeline and start_detached of a failing pipeline terminate the process by design; modelled as termination, not as a violation',
         'non-stdexec build: sends_done is false for every pika adaptor and for any_sender, so when_all_vector / split_tuple over such senders reach PIKA_UNREACHABLE on stopped; the harness puts a glue sender with sends_done=true below them (see notes/C03.md)',
     ])
